@@ -28,7 +28,18 @@ RULE = ("streams of calls (motif name, graph, root, substitution for phi and for
         "alive and fed other motifs under the same names; a third of the small graphs and all random ones carry "
         "non-contiguous labels up to 257 in shuffled insertion order; a malformed stream (root not in "
         "the motif); the corpus starts with focal vertex 0 in motifs whose first inserted vertex is another one (and phi = 0 / "
-        "u_v = 0 as Poly, int, float). Non-trivial = the call's motif contains a cycle and the polynomial has >= 6 monomials; distinct "
+        "u_v = 0 as Poly, int, float); the focal vertex is always handed over as an int object of its own (equal to, not "
+        "identical with, the graph's key; labels up to 511). MP STREAMS (6 in the corpus, 46 quick / 182 thorough): the same "
+        "calls made through the library's other public entry point MessagePassing.resolve_equation(focal, cover label, "
+        "messages) on ONE MessagePassing object (iterations=0, theoretical(phi) installs phi) over an edge-disjoint covered "
+        "network = 1-3 motifs of the stream (13 shapes: edge .. 6-cycle, and every connected graph on <= 4 vertices) + "
+        "FOREIGN motifs joining two non-adjacent vertices of a motif (its chords covered as separate 2-cliques / triangles / "
+        "4-cycles over new vertices), pendant edges, motifs glued at one vertex; cover labels '<key>-[vertices]-[edges]-<uid>' "
+        "with the integer key assigned per topology in six ways (clique size, edge count, index from 1 / from 0, a code, "
+        "arbitrary numbers), vertex / edge literals spelled as list, tuple, without spaces, edges as lists, uids overlapping "
+        "or disjoint from the vertex labels; every (motif, focal) incl. the foreign motifs, heterogeneous messages, repeated "
+        "later; 40% with a decoy MessagePassing object (same labels, every motif a path); judged by the same checker against "
+        "the motif WRITTEN IN THE LABEL. Non-trivial = the call's motif contains a cycle and the polynomial has >= 6 monomials; distinct "
         "by (nodes, edges, root, substitution)")
 EXHAUSTIVE = {"quick": True, "thorough": True}
 EXPLANATION = ("C15_identity_general (= C15_full, PROVED): for EVERY well-formed motif of any size with arbitrary vertex labels, "
@@ -40,7 +51,9 @@ EXPLANATION = ("C15_identity_general (= C15_full, PROVED): for EVERY well-formed
                "vertices and every root (reflection, lifted through ring_correct to all rational phi, u); "
                "C15_history, C15_exact_in_unit, C15_expectation_rec general; C15_check_accepts_only_model: whatever the "
                "verified checker accepts agrees everywhere with the model's polynomial (any motif size). "
-               "Correspondence exhaustive over all graphs <= 4 (quick) / <= 5 (thorough) vertices x roots.")
+               "Correspondence exhaustive over all graphs <= 4 (quick) / <= 5 (thorough) vertices x roots; the same motifs are "
+               "also evaluated through MessagePassing.resolve_equation on covered networks (the motif = the vertex / edge lists of "
+               "the cover label, whatever other motifs touch its vertices) and judged by the same checker.")
 ASSUMPTIONS = [
     "networkx Graph.copy / remove_edges_from / remove_nodes_from / neighbors / is_connected / edges behave as modelled "
     "(their results are compared with the model's on every case)",
@@ -185,7 +198,7 @@ def _rand_connected(rng, n, max_edges, labels):
     return nodes, edges
 
 
-LABELS = list(range(0, 12)) + [15, 16, 17, 31, 32, 33, 63, 64, 65, 100, 257]
+LABELS = list(range(0, 12)) + [15, 16, 17, 31, 32, 33, 63, 64, 65, 100, 257, 258, 300, 511]
 AMBIG = [1, 2, 3, 11, 12, 13, 21, 23, 31, 32, 111, 112, 121, 123, 211, 231, 311, 312]
 
 
@@ -315,6 +328,196 @@ def _root_classes(nodes, edges):
     return list(cls.values())
 
 
+
+# ----------------------------------------------------------------- the OTHER public entry point: MessagePassing
+# Users reach the automated equation through MessagePassing.resolve_equation(focal, cover label, messages) (and through
+# theoretical(), which calls it): the motif is the one WRITTEN IN THE COVER LABEL "<key>-[vertices]-[edges]-<uid>" of an
+# edge-disjoint cover.  Legal (message_passing_mixin.py): key = an integer naming the topology (int(key) is what
+# get_motif_topology returns; nothing says it is the size), vertices / edges = Python literals of non-negative
+# integers (ast.literal_eval: list or tuple, any spacing), uid = integer.  An mp stream = one covered network (the
+# stream's motifs + FOREIGN motifs: chords of a motif covered as separate 2-cliques / triangles / 4-cycles over a new
+# vertex, pendant edges, motifs glued at a vertex) + calls (motif, focal, substitution) on ONE MessagePassing object,
+# judged by the same checker against the motif of the label.
+KEYMODES = ["size", "edges", "index", "index0", "code", "big"]
+FMTS = ["list", "tight", "tuple", "mixed"]
+MP_SHAPES = [
+    ([0, 1], [[0, 1]]),
+    ([0, 1, 2], [[0, 1], [1, 2]]),
+    ([0, 1, 2], [[0, 1], [1, 2], [0, 2]]),
+    ([0, 1, 2, 3], [[0, 1], [1, 2], [2, 3], [3, 0]]),
+    DIAMOND, K4,
+    ([0, 1, 2, 3], [[0, 1], [1, 2], [0, 2], [2, 3]]),
+    ([0, 1, 2, 3], [[0, 1], [0, 2], [0, 3]]),
+    ([0, 1, 2, 3], [[0, 1], [1, 2], [2, 3]]),
+    C5,
+    ([0, 1, 2, 3, 4], [[0, 1], [1, 2], [2, 3], [3, 4], [4, 0], [1, 4]]),
+    ([0, 1, 2, 3, 4], [[0, 1], [1, 2], [2, 0], [2, 3], [3, 4], [4, 2]]),
+    ([0, 1, 2, 3, 4, 5], [[0, 1], [1, 2], [2, 3], [3, 4], [4, 5], [5, 0]]),
+]
+MP_LABELS = list(range(0, 14)) + [15, 16, 17, 31, 32, 33, 63, 64, 65, 100, 255, 256, 257, 258, 300, 511]
+
+
+def _topo_code(nodes, edges):
+    """a topology invariant (same for isomorphic motifs of the shapes used here): degree sequence"""
+    deg = {v: 0 for v in nodes}
+    for a, b in edges:
+        deg[a] += 1
+        deg[b] += 1
+    return (len(nodes), len(edges), tuple(sorted(deg.values())))
+
+
+def _mp_net(rng, shapes, keymode=None, fmt=None, foreign=0.6, glue=0.3, labels=None, uid_mode=None):
+    """network = the given motifs on fresh labels (sometimes glued to an earlier one at ONE vertex) + foreign motifs
+    joining two non-adjacent vertices of a motif (2-clique chord / triangle / 4-cycle through new vertices) and pendant
+    edges.  Returns {"motifs": [{id,key,verts,edges}], "nodes", "insert", "fmt"}; the first len(shapes) motifs are
+    the ones the stream asks about."""
+    keymode = keymode or rng.choice(KEYMODES)
+    fmt = fmt or rng.choice(FMTS)
+    lab = list(labels or MP_LABELS)
+    rng.shuffle(lab)
+    nxt = iter(lab)
+    motifs = []
+    used = []
+    taken = set()       # vertex pairs already joined by an edge of some motif
+    for ns, es in shapes:
+        mp = {}
+        if used and rng.random() < glue:
+            mp[rng.choice(ns)] = rng.choice(used)
+        for v in ns:
+            if v not in mp:
+                mp[v] = next(nxt)
+        vs = [mp[v] for v in ns]
+        ee = [[mp[a], mp[b]] for a, b in es]
+        if any(frozenset(e) in taken for e in ee):
+            continue
+        taken |= {frozenset(e) for e in ee}
+        rng.shuffle(vs)
+        rng.shuffle(ee)
+        ee = [e if rng.random() < 0.5 else [e[1], e[0]] for e in ee]
+        motifs.append({"verts": vs, "edges": ee})
+        used += [v for v in vs if v not in used]
+    n_main = len(motifs)
+    # foreign motifs over the non-edges of the main motifs
+    for m in list(motifs[:n_main]):
+        vs = m["verts"]
+        non = [(a, b) for i, a in enumerate(vs) for b in vs[i + 1:] if frozenset((a, b)) not in taken]
+        rng.shuffle(non)
+        for a, b in non:
+            if rng.random() >= foreign:
+                continue
+            kind = rng.choice(["chord", "chord", "triangle", "cycle4"])
+            try:
+                if kind == "chord":
+                    f = {"verts": [a, b], "edges": [[a, b]]}
+                elif kind == "triangle":
+                    w = next(nxt)
+                    f = {"verts": [a, w, b], "edges": [[a, b], [b, w], [w, a]]}
+                else:
+                    w, x = next(nxt), next(nxt)
+                    f = {"verts": [w, a, b, x], "edges": [[a, b], [b, x], [x, w], [w, a]]}
+            except StopIteration:
+                break
+            if any(frozenset(e) in taken for e in f["edges"]):
+                continue
+            taken |= {frozenset(e) for e in f["edges"]}
+            motifs.append(f)
+            used += [v for v in f["verts"] if v not in used]
+    for _ in range(rng.randint(0, 2)):
+        try:
+            w = next(nxt)
+        except StopIteration:
+            break
+        a = rng.choice(used)
+        motifs.append({"verts": [a, w], "edges": [[w, a]]})
+        taken.add(frozenset((a, w)))
+        used.append(w)
+    # keys: one integer per topology, assigned in every way the label format allows
+    codes = []
+    for m in motifs:
+        c = _topo_code(m["verts"], m["edges"])
+        if c not in codes:
+            codes.append(c)
+    order = list(range(len(codes)))
+    rng.shuffle(order)
+    for m in motifs:
+        n, e, _ = c = _topo_code(m["verts"], m["edges"])
+        i = order[codes.index(c)]
+        clique = e == n * (n - 1) // 2
+        if keymode == "size":
+            m["key"] = n if clique else 10 * n + i      # the convention of the docstring example: cliques by size
+        elif keymode == "edges":
+            m["key"] = e if clique else 100 * e + i + 10
+        elif keymode == "index":
+            m["key"] = i + 1
+        elif keymode == "index0":
+            m["key"] = i
+        elif keymode == "code":
+            m["key"] = 10000 * (i + 1) + 100 * n + e
+        else:
+            m["key"] = 1000 + 37 * i
+    # unique ids: overlapping the vertex labels (0, 1, 2 ...), or disjoint from them, or arbitrary
+    uid_mode = uid_mode or rng.choice(["low", "high", "mixed"])
+    ids = rng.sample(range(0, len(motifs) + 3), len(motifs)) if uid_mode == "low" else \
+        rng.sample(range(5000, 5100), len(motifs)) if uid_mode == "high" else \
+        rng.sample(list(range(0, 12)) + [100, 256, 257, 1000, 70000] + list(range(6000, 6060)), len(motifs))
+    for m, i in zip(motifs, ids):
+        m["id"] = i
+    nodes = list(used)
+    rng.shuffle(nodes)
+    ins = [[e[0], e[1], m["id"]] for m in motifs for e in m["edges"]]
+    rng.shuffle(ins)
+    return {"motifs": motifs, "nodes": nodes, "insert": ins, "fmt": fmt, "n_main": n_main}
+
+
+def _mp_stream(rng, shapes, subs=1, all_roots=True, **kw):
+    net = _mp_net(rng, shapes, **kw)
+    calls = []
+    pair_name = {}
+    for mi in range(net["n_main"]):
+        m = net["motifs"][mi]
+        roots = list(m["verts"]) if all_roots else rng.sample(m["verts"], min(2, len(m["verts"])))
+        for r in roots:
+            name = pair_name.setdefault((r, mi), len(pair_name))
+            c = _call(name, m["verts"], m["edges"], r, _ident_sub(m["verts"]))
+            c["mid"] = mi
+            calls.append(c)
+            for _ in range(subs):
+                if rng.random() < 0.5:
+                    c = _call(name, m["verts"], m["edges"], r, _rand_sub(rng, m["verts"], r))
+                    c["mid"] = mi
+                    calls.append(c)
+    # the foreign motifs are asked about too (their own label, their own edges)
+    for mi in range(net["n_main"], len(net["motifs"])):
+        if rng.random() < 0.4:
+            m = net["motifs"][mi]
+            r = rng.choice(m["verts"])
+            c = _call(pair_name.setdefault((r, mi), len(pair_name)), m["verts"], m["edges"], r, _ident_sub(m["verts"]))
+            c["mid"] = mi
+            calls.append(c)
+    rng.shuffle(calls)
+    # a (motif, focal) pair asked again after the others (evaluator state shared by all motifs of the network)
+    if calls:
+        calls += [dict(c) for c in rng.sample(calls, min(3, len(calls)))]
+    return {"kind": "mp", "net": net, "calls": calls, "decoy": rng.random() < 0.4}
+
+
+def _mp_structured(rng):
+    """the structured part of the mp streams (same in both tiers): every shape under every key mode and label format,
+    with chords of the non-complete shapes covered by foreign motifs; cliques keyed by anything but their size"""
+    out = []
+    shapes = list(MP_SHAPES)
+    k = 0
+    for ns, es in shapes:
+        for rep in range(2):
+            out.append(_mp_stream(rng, [(ns, es)], keymode=KEYMODES[k % len(KEYMODES)], fmt=FMTS[k % len(FMTS)],
+                                  foreign=1.0 if rep == 0 else 0.5, subs=1,
+                                  labels=(list(range(0, 14)) if rep == 0 else None)))
+            k += 1
+    # the complete motifs under every key mode (a key is a NAME of the topology, not its size)
+    for km in KEYMODES:
+        out.append(_mp_stream(rng, [MP_SHAPES[0], MP_SHAPES[2], K4], keymode=km, glue=0.5, foreign=0.0, subs=0))
+    return out
+
 def corpus():
     out = []
     # one shared evaluator, the classic motifs, every root, heterogeneous u, then again with other phi / u
@@ -365,10 +568,30 @@ def corpus():
     # bridge / by a path, every root
     fam = [g for g in block_family() if len(g[1]) <= 8 and len(g[0]) >= 6][:3]
     out.append({"calls": [_call(nm, ns, es, r, _ident_sub(ns)) for nm, (ns, es) in enumerate(fam) for r in ns]})
+    # through MessagePassing.resolve_equation: every non-complete shape with ALL its chords covered by foreign motifs,
+    # the complete ones under keys that are not their size
+    import random
+    rng = random.Random(1515)
+    mp = []
+    for k, sh in enumerate([MP_SHAPES[3], MP_SHAPES[1], C5, DIAMOND]):
+        mp.append(_mp_stream(rng, [sh], keymode=KEYMODES[k % len(KEYMODES)], fmt=FMTS[k % len(FMTS)], foreign=1.0, subs=1,
+                             labels=list(range(0, 14))))
+    mp.append(_mp_stream(rng, [MP_SHAPES[0], MP_SHAPES[2], K4], keymode="edges", fmt="list", glue=1.0, foreign=0.0, subs=0,
+                         labels=list(range(0, 14))))
+    mp.append(_mp_stream(rng, [MP_SHAPES[3], K4], keymode="index0", fmt="tuple", foreign=1.0, subs=1))
+    out[1:1] = mp
     return out
 
 
 def generate(rng, tier):
+    # (0) the other public entry point (MessagePassing.resolve_equation): structured streams, then random ones
+    for c in _mp_structured(rng):
+        yield c
+    small = [(list(range(k)), es) for k in (2, 3, 4) for es in _graphs_on(k)
+             if es and _connected(list(range(k)), es)]
+    for _ in range(14 if tier == "quick" else 150):
+        shapes = [rng.choice(small if rng.random() < 0.6 else MP_SHAPES) for _ in range(rng.randint(1, 3))]
+        yield _mp_stream(rng, shapes, subs=1, all_roots=rng.random() < 0.6)
     # (1) exhaustive: every labelled graph on <= K vertices, every root, grouped 3-6 graphs per evaluator
     K = 4 if tier == "quick" else 5
     graphs = []
@@ -472,7 +695,103 @@ def _snapshot(G):
             sorted(G.graph.items()), [(n, list(G.adj[n])) for n in G.nodes()])
 
 
+def _fresh_int(v):
+    """an int EQUAL to v that is not the object stored anywhere else (ints above 256 are not interned: callers hand
+    over ids they parsed / computed, never the very object that sits in the graph)"""
+    return int(str(int(v)))
+
+
+def _fmt_label(m, fmt):
+    """the cover label "<key>-[vertices]-[edges]-<uid>" in the spellings ast.literal_eval reads alike"""
+    vs = [int(v) for v in m["verts"]]
+    es = [(int(a), int(b)) for a, b in m["edges"]]
+    if fmt == "tight":
+        vtxt = "[" + ",".join(map(str, vs)) + "]"
+        etxt = "[" + ",".join("(%d,%d)" % e for e in es) + "]"
+    elif fmt == "tuple":
+        vtxt = str(tuple(vs))
+        etxt = str(tuple(es)) if len(es) > 1 else "[" + str(es[0]) + "]"
+    elif fmt == "mixed":
+        vtxt = str(vs)
+        etxt = str([list(e) for e in es])
+    else:
+        vtxt, etxt = str(vs), str(es)
+    return f"{m['key']}-{vtxt}-{etxt}-{m['id']}"
+
+
+def _mp_graph(net, shape="own"):
+    import networkx as nx
+    G = nx.Graph(note="net")
+    G.add_nodes_from(net["nodes"])
+    nx.set_node_attributes(G, {v: f"v{v}" for v in net["nodes"]}, "lab")
+    labels = {}
+    for m in net["motifs"]:
+        mm = m
+        if shape == "path":     # decoy: same vertex sets, keys and ids, every motif a path
+            mm = dict(m, edges=[[m["verts"][i], m["verts"][i + 1]] for i in range(len(m["verts"]) - 1)])
+        labels[m["id"]] = _fmt_label(mm, net.get("fmt", "list"))
+    if shape == "path":
+        ins = [[m["verts"][i], m["verts"][i + 1], m["id"]] for m in net["motifs"] for i in range(len(m["verts"]) - 1)]
+    else:
+        ins = net["insert"]
+    for k, (a, b, mid) in enumerate(ins):
+        if not G.has_edge(a, b):
+            G.add_edge(a, b, CoverLabel=labels[mid], w=k)
+    return G, labels
+
+
+def _impl_mp(case):
+    """the calls of the stream through MessagePassing.resolve_equation on ONE object over the covered network"""
+    from gcmpy.message_passing.message_passing import MessagePassing
+    net = case["net"]
+    G, labels = _mp_graph(net)
+    # iterations = 0: theoretical(phi) only installs the occupation probability (public way to set it) and returns
+    mp = MessagePassing(G, iterations=0)
+    decoy = None
+    if case.get("decoy"):
+        decoy = MessagePassing(_mp_graph(net, "path")[0], iterations=0)
+        decoy.theoretical(0.5)
+    obs = []
+    cur_phi = None
+    for k, call in enumerate(case["calls"]):
+        m = net["motifs"][call["mid"]]
+        label = labels[m["id"]]
+        if decoy is not None and len(m["verts"]) >= 2:
+            vs = m["verts"]
+            f = vs[k % len(vs)]
+            try:
+                decoy.resolve_equation(_fresh_int(f), _fmt_label(dict(m, edges=[[vs[i], vs[i + 1]] for i in range(len(vs) - 1)]),
+                                                                 net.get("fmt", "list")),
+                                       {_fresh_int(v): 0.25 for v in vs if v != f})
+            except Exception:  # noqa: BLE001
+                pass
+        before = _snapshot(G)
+        try:
+            if call["phi"] != cur_phi:
+                mp.theoretical(_mk_arg(call["phi"]))
+                cur_phi = call["phi"]
+            focal = _fresh_int(call["root"])
+            prods = {_fresh_int(v): _mk_arg(_u_sub(call, v)) for v in m["verts"] if v != call["root"]}
+            keep = list(prods.items())
+            r = mp.resolve_equation(focal, str(label), prods)
+        except Exception as e:  # noqa: BLE001
+            if type(e).__name__ == "ImplTimeout":
+                raise
+            obs.append(["!exc", type(e).__name__])
+            continue
+        p = Poly.lift(r)
+        if p is None:
+            obs.append(["!type", type(r).__name__])
+            continue
+        same = before == _snapshot(G) and len(keep) == len(prods) and \
+            all(a[0] == b[0] and a[1] is b[1] for a, b in zip(keep, prods.items()))
+        obs.append([0, p.to_wire(), None, [], 0, int(same)])
+    return obs
+
+
 def impl(case):
+    if case.get("kind") == "mp":
+        return _impl_mp(case)
     import networkx as nx
     from gcmpy.message_passing.equations.automated_equation import AutomatedEquation
     ae = AutomatedEquation()
@@ -506,7 +825,7 @@ def impl(case):
         nx.set_node_attributes(G, {v: _mk_arg(_u_sub(call, v)) for v in call["nodes"]}, "u")
         before = _snapshot(G)
         try:
-            r = ae.automated_equation(G, _mk_arg(call["phi"]), call["root"])
+            r = ae.automated_equation(G, _mk_arg(call["phi"]), _fresh_int(call["root"]))
         except Exception as e:  # noqa: BLE001
             obs.append(["!exc", type(e).__name__])
             continue
@@ -662,6 +981,17 @@ def nontrivial_key(case, impl_obs):
 
 
 def shrink(case):
+    if case.get("kind") == "mp":
+        # the network stays; calls are dropped / their substitutions simplified, the decoy switched off
+        calls = case["calls"]
+        for i in range(len(calls)):
+            yield dict(case, calls=calls[:i] + calls[i + 1:])
+        for i, c in enumerate(calls):
+            if c["u"] or c["phi"] != [1, 1, 0]:
+                yield dict(case, calls=calls[:i] + [dict(c, phi=[1, 1, 0], u=[])] + calls[i + 1:])
+        if case.get("decoy"):
+            yield dict(case, decoy=False)
+        return
     for c in _shrink(case):
         yield dict(c, reuse=case.get("reuse", False), decoy=case.get("decoy", False))
 
